@@ -270,6 +270,27 @@ impl Client {
         })
     }
 
+    /// A second handler instance for `proto` that shares the store and the peers with the
+    /// first one, as the protocol tasks of the real process share them (C17: two protocol
+    /// handlers running at the same time). The light-client and sync handlers hold nothing
+    /// else; the filter handler's own `last_ask_time` is not shared.
+    pub fn twin(&self, proto: Proto, consensus: &Consensus) -> Option<Box<dyn CKBProtocolHandler + Send>> {
+        match proto {
+            Proto::LightClient => {
+                let mut lc = LightClientProtocol::new(self.storage.clone(), Arc::clone(&self.peers), consensus.clone());
+                lc.verif_set_knobs(self.knobs.last_n, self.knobs.mmr_activated_epoch, self.knobs.blocks_in_transit);
+                Some(Box::new(lc))
+            }
+            Proto::Filter => Some(Box::new(FilterProtocol::new(self.storage.clone(), Arc::clone(&self.peers)))),
+            Proto::Sync => Some(Box::new(SyncProtocol::new(self.storage.clone(), Arc::clone(&self.peers)))),
+            _ => None,
+        }
+    }
+
+    pub fn ctx_for(&self, proto: Proto) -> Arc<dyn CKBProtocolContext + Sync> {
+        self.ctx(proto)
+    }
+
     fn ctx(&self, proto: Proto) -> Arc<dyn CKBProtocolContext + Sync> {
         SimContext::new(proto.support(), Arc::clone(&self.net))
     }
